@@ -18,12 +18,13 @@ from props.c02_util import (X_dense, X_sparse, X_k, X_t, X_sum, shape_of, pdense
 
 PROP = "C02"
 LEVEL = "proof"
-GEN_UNITS = ["GenUtils"]      # Props/C02.v states C02_dimscheck_align / C02_ttv_dense_req / C02_ttm_dense_req over the generated tt_dimscheck
+GEN_UNITS = ["GenUtils", "GenUtils2"]   # Props/C02.v states C02_dimscheck_align / C02_ttv_dense_req / C02_ttm_dense_req over the generated tt_dimscheck,
+                                        # C02_ttt_dense_req / C02_to_tenmat_req_* over the generated gather_wrap_dims
 COQ_TARGETS = ["Props/C02.vo", "Model/C02Harness.vo", "Model/Harness.vo"]
 THEOREM_FILES = ["Props/C02.v"]
 COQ_IMPORTS = ("From Coq Require Import List ZArith Bool Arith QArith Qcanon.\n"
                "From PV Require Import Base.Index Base.Perm Base.Sum Np.Array Model.Sparse Model.Repr Model.Harness "
-               "Np.NpZ Gen.GenUtils Model.C02Spec Model.C02Dense Model.C02Sparse Model.C02Modes Model.C02Kruskal Model.C02SpKernels Model.C02Absorb Model.C02Tenmat Model.C02SpMore Model.C02KruskalMore Model.C02Tucker Model.C02TuckerFull Model.C02Harness.\n")
+               "Np.NpZ Np.NpZ2 Gen.GenUtils Gen.GenUtils2 Model.C02TenmatReq Model.C02Spec Model.C02Dense Model.C02Sparse Model.C02Modes Model.C02Kruskal Model.C02SpKernels Model.C02Absorb Model.C02Tenmat Model.C02SpMore Model.C02KruskalMore Model.C02Tucker Model.C02TuckerFull Model.C02Harness.\n")
 RULE = ("mttkrp/mttkrps additionally on 4-, 5- and 6-way tensors (<= ~200 entries) with skewed and balanced shapes so that every "
         "split index of min_split and Khatri-Rao products of >= 2 matrices occur in each helper; dims orders include cyclic "
         "(non-involutive) ones; otherwise shapes with <= 4 modes / <= 72 entries incl. distinct sizes (2,3,4), singleton modes and 1-way; every non-empty mode "
@@ -42,7 +43,7 @@ EXPLANATION = ("Correspondence compares pyttb's raw result with spec_op applied 
                "ttm, collapse, contract, scale, mask and mttkrp, Kruskal ttv (any mode set) and mttkrp, Tucker ttm / ttv / mttkrp, linearity over sums.")
 CORRESPONDENCE_ONLY = [
     "dense mttkrps (algorithm with min_split / mttv_left / mttv_mid: no algorithm model; compared entry-wise with spec_mttkrp for every mode on 4-, 5-, 6-way tensors covering every split index)",
-    "dense ttsv (spec only); gather_wrap_dims inside to_tenmat (the proved ttt / collapse / scale models start from its documented result)",
+    "dense ttsv (spec only); tt_dimscheck inside collapse / scale / contract (their models take the sorted modes; ttt and to_tenmat are tied to the GENERATED gather_wrap_dims)",
     "sparse ttm in list form beyond the first sorted mode (the first mode is the proved coordinate-list model, its dense result goes through the proved tensor.ttm), "
     "the choice of the result container (scalar / ndarray / tensor / sptensor and the 50% switch of sptensor.ttv / contract: evaluated in Coq on the expected array, no theorem), "
     "sptensor.collapse with a reducer other than sum",
@@ -60,7 +61,7 @@ ASSUMPTIONS = [
     "sptensor operands fed to the proved sparse kernels are well formed (distinct in-bounds subscripts), as produced by the generator",
     "accumarray / sptensor.from_aggregator with the sum reducer return, for each output subscript, the sum of the values with that subscript "
     "(contract proved for C03's model: from_aggregator_correct); the sparse ttv / mttkrp models are written against that contract",
-    "tt_dimscheck is the text translated into Gen/GenUtils.v on this run (translator trusted; re-checked by the C17 correspondence stream)",
+    "tt_dimscheck / gather_wrap_dims are the texts translated into Gen/GenUtils.v / Gen/GenUtils2.v on this run (translator trusted; re-checked by the C17 correspondence stream)",
 ]
 
 SHAPES_Q = [[3], [1], [2, 3], [3, 2], [1, 3], [3, 3], [2, 3, 4], [4, 3, 2], [2, 1, 3], [2, 2, 2], [3, 2, 1, 4], [2, 3, 2, 2]]
@@ -823,6 +824,9 @@ def coq_check(c, o):
         if ob["k"] in ("dense", "scalar") and obs_ints(ob):
             e += (f" && dense_eqb (zimpl_ttt_dense {tgen.gdense(X['shape'], X['data'])} {tgen.gdense(Y['shape'], Y['data'])} "
                   f"{gnlist(sd)} {gnlist(od)}) {_dlit(ob)}")
+            # the same call with both matricisations resolved by the GENERATED gather_wrap_dims (Model/C02TenmatReq.v)
+            e += (f" && zres_is (zimpl_ttt_req {tgen.gdense(X['shape'], X['data'])} {tgen.gdense(Y['shape'], Y['data'])} "
+                  f"{gzlist(sd)} {gzlist(od)}) {_dlit(ob)}")
         return e
     if c.op == "ttsv":
         first = 0 if a["skip"] is None else a["skip"] + 1
